@@ -193,9 +193,9 @@ def run(ctx: Ctx):
     # short histories on fresh objects: divisions without a look in between, getters in every position
     import random as _r
     rng = _r.Random(ctx.seed)
-    hplan = [("cube3D", 2, "DgG", 4, 40), ("ico", 2, "DgG", 4, 40), ("cube4D", 1, "DgGhH", 3, 45)]
+    hplan = [("cube3D", 2, "DgG", 4, 100), ("ico", 2, "DgG", 4, 100), ("cube4D", 1, "DhH", 3, 40)]     # all such sequences
     if thorough:
-        hplan = [("cube3D", 3, "DgG", 5, 150), ("ico", 3, "DgG", 5, 150), ("cube4D", 2, "DgGhH", 4, 60)]
+        hplan = [("cube3D", 3, "DgG", 5, 400), ("ico", 3, "DgG", 5, 400), ("cube4D", 2, "DhH", 4, 80), ("cube4D", 1, "DgGhH", 3, 60)]
     for kind, maxdiv, alphabet, length, limit in hplan:
         recs, nseq = short_histories(kind, maxdiv, alphabet, length, rng, limit)
         for i, r in enumerate(recs):
